@@ -388,6 +388,11 @@ class Interp:
         if func.cls is not None and params and params[0] == "self":
             env["self"] = self_obj if self_obj is not None else Opaque("self", "obj")
             params = params[1:]
+        elif func.cls is not None and params and params[0] == "cls" and any(
+                (isinstance(d, ast.Name) and d.id == "classmethod") for d in func.node.decorator_list):
+            # the class object: class-level constants resolve through it as they do through an instance
+            env["cls"] = Opaque("cls", "obj")
+            params = params[1:]
         pos = list(pos)
         for p, v in zip(params, pos):
             env[p] = v
@@ -575,15 +580,39 @@ class Interp:
                 if st.finalbody:
                     self.exec_block(st.finalbody, env)
             return
+        if isinstance(st, ast.With):
+            # context managers are transparent: `as` binds what the expression evaluates to (files, cursors, streams)
+            for item in st.items:
+                v = self.eval(item.context_expr, env)
+                if item.optional_vars is not None:
+                    self.assign(item.optional_vars, v, env)
+                self.trace.events.append(("with", v, st))
+            self.exec_block(st.body, env)
+            return
         if isinstance(st, ast.Assert):
             return
         if isinstance(st, ast.Delete):
             for t in st.targets:
-                if isinstance(t, ast.Subscript):
+                if isinstance(t, ast.Subscript) and isinstance(t.slice, ast.Slice):
+                    base = self.eval(t.value, env)
+                    lo = self.eval(t.slice.lower, env) if t.slice.lower else None
+                    hi = self.eval(t.slice.upper, env) if t.slice.upper else None
+                    if isinstance(base, list) and all(x is None or isinstance(x, int) for x in (lo, hi)):
+                        del base[lo:hi]
+                    elif isinstance(base, (Opaque, Sym)):
+                        self.trace.events.append(("delitem", base, (lo, hi), st))
+                    else:
+                        raise Unsupported("slice deletion on %r" % (base,))
+                elif isinstance(t, ast.Subscript):
                     base = self.eval(t.value, env)
                     key = self.eval(t.slice, env)
                     if isinstance(base, dict) and key in base:
                         del base[key]
+                    elif isinstance(base, list) and isinstance(key, int):
+                        try:
+                            del base[key]
+                        except IndexError:
+                            raise RaiseEx("IndexError", "list assignment index out of range", st)
                 elif isinstance(t, ast.Name):
                     env.pop(t.id, None)
             return
@@ -701,7 +730,7 @@ class Interp:
         if isinstance(base, (Opaque, Sym)):
             if node.attr in base.attrs:
                 return base.attrs[node.attr]
-            if isinstance(base, Opaque) and base.name == "self":
+            if isinstance(base, Opaque) and base.name in ("self", "cls"):
                 # a class-level constant (self._SQL): the class body assignment, along the MRO
                 func = env.get("__func__")
                 c = getattr(func, "cls", None)
@@ -908,10 +937,10 @@ class Interp:
             v = self.eval(e, env)
             t = self.decide(v, e)
             if is_and and not t:
-                return v if self.truth(v) is not None else False
+                return v if (self.truth(v) is not None or not isinstance(v, ACond)) else False
             if not is_and and t:
-                return v if self.truth(v) is not None else True
-        if self.truth(v) is None:
+                return v if (self.truth(v) is not None or not isinstance(v, ACond)) else True
+        if self.truth(v) is None and isinstance(v, ACond):
             return is_and
         return v
 
@@ -1284,10 +1313,13 @@ class Interp:
             if isinstance(v, dict):
                 return list(v)
             if isinstance(v, Opaque):
-                o = Opaque(v.name, "list", v.origin)
+                # list(<a list>) is a copy: a different object
+                o = Opaque(("copy(%s)" % v.name) if v.kind == "list" else v.name, "list", v.origin)
                 return o
             if isinstance(v, RepList):
                 return v
+            if v is None or isinstance(v, (bool, int, float)):
+                raise RaiseEx("TypeError", "'%s' object is not iterable" % type(v).__name__, node)
             raise Unsupported("list(%r)" % (v,))
         if name == "tuple":
             v = pos[0] if pos else ()
@@ -1606,6 +1638,9 @@ class Interp:
                     raise RaiseEx("ValueError", "%r is not in list" % (pos[0],), node)
             if attr == "copy":
                 return list(base)
+            if attr == "clear":
+                del base[:]
+                return None
             if attr == "pop":
                 return base.pop(*pos)
             if attr == "insert":
